@@ -736,6 +736,172 @@ theorem xmatch_binary_next_larger (lookup : Val) (rows keys : List Val) (kd : LK
       rw [hkeq.1] at this; cases this
 
 
+open E2P.LookupBin in
+/-- **XMATCH(v, keys, -1, -2)** (binary search on keys that DESCEND strictly): the position of the FIRST key that is not greater than the
+lookup value - the largest such key -, #N/A when every key is greater -/
+theorem xmatch_binary_desc_next_smaller (lookup : Val) (rows keys : List Val) (kd : LKind)
+    (hk : keysOf rows = some keys) (hne : keys ≠ []) (hv : lkind lookup = some kd) (hkd : ∀ k ∈ keys, lkind k = some kd)
+    (hnb : ∀ k ∈ lookup :: keys, k ≠ .blank)
+    (hs : ∀ (i j : Nat) ki kj, i < j → keys[i]? = some ki → keys[j]? = some kj → Before true ki kj) :
+    ∃ r, xmatchFn lookup (.list rows) (-1) (-2) = .ok r ∧
+      (∀ (i : Nat) k, keys[i]? = some k → bsLt lookup k = some false →
+        (∀ (j : Nat) kj, keys[j]? = some kj → j < i → bsLt lookup kj = some true) → r = .int ((i : Int) + 1)) ∧
+      ((∀ k ∈ keys, bsLt lookup k = some true) → r = errNA) := by
+  have hok := ok_of_sorted kd keys lookup true hv hkd hnb hs
+  obtain ⟨e, ns, nl, hbs, hres⟩ := binarySearch_track_rev keys lookup hok hne
+  have hall : (lookup :: keys).all bsOperand = true := by
+    rw [List.all_eq_true]
+    intro k hkm
+    have hb := hnb k hkm
+    have hkk : lkind k = some kd := by
+      rcases List.mem_cons.mp hkm with rfl | hkm
+      · exact hv
+      · exact hkd k hkm
+    cases k <;> simp_all [bsOperand]
+  refine ⟨if ns = -1 then errNA else .int (ns + 1), ?_, ?_, ?_⟩
+  · have h1 : ¬ ((-2 : Int) = 1) := by decide
+    have h2 : ¬ ((-2 : Int) = -1) := by decide
+    simp only [xmatchFn, h1, h2, if_false, or_true, if_true, hk, hall, Bool.not_true, Bool.false_eq_true]
+    simp only [show (decide True) = true from rfl, hbs]
+  · intro i k hi hle hbefore
+    have hilen : i < keys.length := (List.getElem?_eq_some_iff.mp hi).1
+    rcases hres with ⟨_, f, hf0, hfl, hcut, hns, _⟩ | ⟨he0, hns, _, ke, hke, hkeq⟩
+    · have hc := hcut i k hi
+      unfold Lside Rside at hc
+      simp only [if_true] at hc
+      have hfi : f ≤ (i : Int) := by
+        by_contra hcon
+        have := hc.1 (by omega)
+        rw [hle] at this; cases this
+      have hi1 : (i : Int) = f := by
+        by_contra hcon
+        have hj : f.toNat < keys.length := by omega
+        have hcj := hcut f.toNat keys[f.toNat] (List.getElem?_eq_getElem hj)
+        unfold Rside at hcj
+        simp only [if_true] at hcj
+        have hR := hcj.2 (by omega)
+        have hL := hbefore f.toNat keys[f.toNat] (List.getElem?_eq_getElem hj) (by omega)
+        rw [bsLt_asymm _ _ hR] at hL; cases hL
+      have hfl' : ¬ f = (keys.length : Int) := by omega
+      rw [hns, if_neg hfl']
+      have : ¬ f = -1 := by omega
+      rw [if_neg this]
+      congr 1
+      omega
+    · have : ¬ ns = -1 := by omega
+      rw [if_neg this, hns]
+      congr 2
+      by_cases hgt : e.toNat < i
+      · exfalso
+        have := hbefore e.toNat ke hke hgt
+        rw [hkeq.2] at this; cases this
+      · by_cases hlt : i < e.toNat
+        · exfalso
+          have hb := hs i e.toNat k ke hlt hi hke
+          unfold Before at hb
+          simp only [if_true] at hb
+          have := bsEq_lt_transfer ke lookup k hkeq hb
+          rw [hle] at this; cases this
+        · omega
+  · intro hallgt
+    rcases hres with ⟨_, f, hf0, hfl, hcut, hns, _⟩ | ⟨he0, _, _, ke, hke, hkeq⟩
+    · have hf : f = (keys.length : Int) := by
+        by_contra hcon
+        have hj : f.toNat < keys.length := by omega
+        have hcj := hcut f.toNat keys[f.toNat] (List.getElem?_eq_getElem hj)
+        unfold Rside at hcj
+        simp only [if_true] at hcj
+        have hR := hcj.2 (by omega)
+        have hL := hallgt keys[f.toNat] (List.getElem_mem hj)
+        rw [bsLt_asymm _ _ hR] at hL; cases hL
+      rw [hns, if_pos hf]
+      simp
+    · exfalso
+      have := hallgt ke (List.mem_of_getElem? hke)
+      rw [hkeq.2] at this; cases this
+
+open E2P.LookupBin in
+/-- **XMATCH(v, keys, 1, -2)** (binary search on keys that DESCEND strictly): the position of the LAST key that is not smaller than the
+lookup value - the smallest such key -, #N/A when every key is smaller -/
+theorem xmatch_binary_desc_next_larger (lookup : Val) (rows keys : List Val) (kd : LKind)
+    (hk : keysOf rows = some keys) (hne : keys ≠ []) (hv : lkind lookup = some kd) (hkd : ∀ k ∈ keys, lkind k = some kd)
+    (hnb : ∀ k ∈ lookup :: keys, k ≠ .blank)
+    (hs : ∀ (i j : Nat) ki kj, i < j → keys[i]? = some ki → keys[j]? = some kj → Before true ki kj) :
+    ∃ r, xmatchFn lookup (.list rows) 1 (-2) = .ok r ∧
+      (∀ (i : Nat) k, keys[i]? = some k → bsLt k lookup = some false →
+        (∀ (j : Nat) kj, keys[j]? = some kj → i < j → bsLt kj lookup = some true) → r = .int ((i : Int) + 1)) ∧
+      ((∀ k ∈ keys, bsLt k lookup = some true) → r = errNA) := by
+  have hok := ok_of_sorted kd keys lookup true hv hkd hnb hs
+  obtain ⟨e, ns, nl, hbs, hres⟩ := binarySearch_track_rev keys lookup hok hne
+  have hall : (lookup :: keys).all bsOperand = true := by
+    rw [List.all_eq_true]
+    intro k hkm
+    have hb := hnb k hkm
+    have hkk : lkind k = some kd := by
+      rcases List.mem_cons.mp hkm with rfl | hkm
+      · exact hv
+      · exact hkd k hkm
+    cases k <;> simp_all [bsOperand]
+  refine ⟨if nl = -1 then errNA else .int (nl + 1), ?_, ?_, ?_⟩
+  · have h1 : ¬ ((-2 : Int) = 1) := by decide
+    have h2 : ¬ ((-2 : Int) = -1) := by decide
+    have h3 : ¬ ((1 : Int) = -1) := by decide
+    simp only [xmatchFn, h1, h2, h3, if_false, or_true, if_true, hk, hall, Bool.not_true, Bool.false_eq_true]
+    simp only [show (decide True) = true from rfl, hbs]
+  · intro i k hi hge hafter
+    rcases hres with ⟨_, f, hf0, hfl, hcut, _, hnl⟩ | ⟨he0, _, hnl, ke, hke, hkeq⟩
+    · have hc := hcut i k hi
+      unfold Lside Rside at hc
+      simp only [if_true] at hc
+      have hif : (i : Int) < f := by
+        by_contra hcon
+        have := hc.2 (by omega)
+        rw [hge] at this; cases this
+      have hi1 : (i : Int) = f - 1 := by
+        by_contra hcon
+        have hj : (f - 1).toNat < keys.length := by omega
+        have hcj := hcut (f - 1).toNat keys[(f - 1).toNat] (List.getElem?_eq_getElem hj)
+        unfold Lside at hcj
+        simp only [if_true] at hcj
+        have hL := hcj.1 (by omega)
+        have hR := hafter (f - 1).toNat keys[(f - 1).toNat] (List.getElem?_eq_getElem hj) (by omega)
+        rw [bsLt_asymm _ _ hL] at hR; cases hR
+      have : ¬ nl = -1 := by omega
+      rw [if_neg this, hnl]
+      congr 1
+      omega
+    · have : ¬ nl = -1 := by omega
+      rw [if_neg this, hnl]
+      congr 2
+      by_cases hlt : i < e.toNat
+      · exfalso
+        have := hafter e.toNat ke hke hlt
+        rw [hkeq.1] at this; cases this
+      · by_cases hgt : e.toNat < i
+        · exfalso
+          have hb := hs e.toNat i ke k hgt hke hi
+          unfold Before at hb
+          simp only [if_true] at hb
+          have := bsEq_gt_transfer ke lookup k hkeq hb
+          rw [hge] at this; cases this
+        · omega
+  · intro hallst
+    rcases hres with ⟨_, f, hf0, hfl, hcut, _, hnl⟩ | ⟨he0, _, _, ke, hke, hkeq⟩
+    · have hf : f = 0 := by
+        by_contra hcon
+        have hj : (f - 1).toNat < keys.length := by omega
+        have hcj := hcut (f - 1).toNat keys[(f - 1).toNat] (List.getElem?_eq_getElem hj)
+        unfold Lside at hcj
+        simp only [if_true] at hcj
+        have hL := hcj.1 (by omega)
+        have hR := hallst keys[(f - 1).toNat] (List.getElem_mem hj)
+        rw [bsLt_asymm _ _ hL] at hR; cases hR
+      have : nl = -1 := by omega
+      rw [if_pos this]
+    · exfalso
+      have := hallst ke (List.mem_of_getElem? hke)
+      rw [hkeq.1] at this; cases this
+
 /-! ### non-vacuity -/
 example : matchFn (.int 5) (.list [.list [.int 1], .list [.flt 5], .list [.int 9]]) 0 = .ok (.int 2) := by rfl
 example : matchFn (.int 10) (.list [.list [.int 1], .list [.flt 5], .list [.int 9]]) 1 = .ok (.int 3) := by rfl
@@ -783,6 +949,22 @@ example : ∃ r, xmatchFn (.int 7) (.list [.list [.int 1], .list [.int 5], .list
   intro j kj hj hlt
   have hj3 : j < 3 := (List.getElem?_eq_some_iff.mp hj).1
   have : j = 2 := by omega
+  subst this
+  simp at hj; subst hj
+  decide +kernel
+open E2P.LookupBin in
+-- 7 in the descending column 9, 5, 1: the first key not greater than 7 is the 2nd
+example : ∃ r, xmatchFn (.int 7) (.list [.list [.int 9], .list [.int 5], .list [.int 1]]) (-1) (-2) = .ok r ∧ r = .int 2 := by
+  obtain ⟨r, h1, h2, _⟩ := xmatch_binary_desc_next_smaller (.int 7) [.list [.int 9], .list [.int 5], .list [.int 1]]
+    [.int 9, .int 5, .int 1] .num rfl (by simp) rfl (by simp [lkind]) (by simp)
+    (by
+      intro i j ki kj hij hi hj
+      have hj3 : j < 3 := (List.getElem?_eq_some_iff.mp hj).1
+      have : (i = 0 ∧ j = 1) ∨ (i = 0 ∧ j = 2) ∨ (i = 1 ∧ j = 2) := by omega
+      rcases this with ⟨rfl, rfl⟩ | ⟨rfl, rfl⟩ | ⟨rfl, rfl⟩ <;> simp at hi hj <;> subst hi <;> subst hj <;> (unfold Before; decide +kernel))
+  refine ⟨r, h1, h2 1 (.int 5) rfl (by decide +kernel) ?_⟩
+  intro j kj hj hlt
+  have : j = 0 := by omega
   subst this
   simp at hj; subst hj
   decide +kernel
